@@ -410,30 +410,35 @@ class JsonMut:
         del cur[path[-1]]
         return o
 
+    def at_path(self, obj, path, n_values: int | None = None):
+        """(mutant, label) for one path: JSON values of every type (all, or a sample of ``n_values``), removal, type-aware edits."""
+        r = self.rng
+        vals = self.values if n_values is None else r.sample(self.values, min(n_values, len(self.values)))
+        for v in vals:
+            yield self.set(obj, path, v), f"set:{type(v).__name__}"
+        yield self.delete(obj, path), "delete-key"
+        old = self.get(obj, path)
+        if isinstance(old, str):
+            for v in (old + "0", old[:-1], old.upper(), old + "\x00", " " + old, old + old, old[::-1], "0x" + old, old + "zz",
+                      old.replace("0", "\uff10"), old[: len(old) // 2]):
+                yield self.set(obj, path, v), "str-edit"
+        if isinstance(old, int) and not isinstance(old, bool):
+            for v in (old + 1, old - 1, -old, float(old), str(old), old * 2**32, [old], float(old) + 0.5):
+                yield self.set(obj, path, v), "int-edit"
+        if isinstance(old, list):
+            yield self.set(obj, path, old + old), "list-doubled"
+            yield self.set(obj, path, old[:-1]), "list-shortened"
+            yield self.set(obj, path, old + [None]), "list+null"
+            yield self.set(obj, path, old * 300), "list-x300"
+        if isinstance(old, dict):
+            yield self.set(obj, path, {**old, "unknown-key": 0}), "unknown-key"
+            yield self.set(obj, path, {**old, "": None}), "empty-key"
+
     def systematic(self, obj, cap_per_path: int | None = None):
         """(mutant, label, path) for every path x every JSON value, plus key removal / unknown keys."""
-        r = self.rng
         for path in self.paths(obj):
-            vals = self.values if cap_per_path is None else r.sample(self.values, min(cap_per_path, len(self.values)))
-            for v in vals:
-                yield self.set(obj, path, v), f"set:{type(v).__name__}", path
-            yield self.delete(obj, path), "delete-key", path
-            old = self.get(obj, path)
-            if isinstance(old, str):
-                for v in (old + "0", old[:-1], old.upper(), old + "\x00", " " + old, old + old, old[::-1], "0x" + old, old + "zz",
-                          old.replace("0", "\uff10"), old[: len(old) // 2]):
-                    yield self.set(obj, path, v), "str-edit", path
-            if isinstance(old, int) and not isinstance(old, bool):
-                for v in (old + 1, old - 1, -old, float(old), str(old), old * 2**32, [old]):
-                    yield self.set(obj, path, v), "int-edit", path
-            if isinstance(old, list):
-                yield self.set(obj, path, old + old), "list-doubled", path
-                yield self.set(obj, path, old[:-1]), "list-shortened", path
-                yield self.set(obj, path, old + [None]), "list+null", path
-                yield self.set(obj, path, old * 300), "list-x300", path
-            if isinstance(old, dict):
-                yield self.set(obj, path, {**old, "unknown-key": 0}), "unknown-key", path
-                yield self.set(obj, path, {**old, "": None}), "empty-key", path
+            for m, lab in self.at_path(obj, path, cap_per_path):
+                yield m, lab, path
         if isinstance(obj, dict):
             yield {**obj, "unknown-key": 1}, "unknown-key", ()
             yield {}, "empty-object", ()
